@@ -424,13 +424,17 @@ _run_clauses = run
 
 def run(prog, rep):
     _run_clauses(prog, rep)
-    from plint.wiring import check_zero_init
+    from plint.wiring import check_zero_init, check_error_contract
+    check_error_contract(rep, "C07.2", prog, ['pshm-posix.c', 'pshm-sysv.c'], 15)
     check_zero_init(rep, "C07.2", prog, ['pshm-posix.c', 'pshm-sysv.c'], 1)
 
 # generic robustness battery: renaming every local/parameter in these files must not change any verdict
 RENAME_LOCALS = ['src/pshm-posix.c']
 
 SELFTEST = [
+    dict(id="create-handle-reports-success-after-fstat-failure", file="src/pshm-posix.c", expect="C07.2",
+         old="\t\t\t\tP_WARNING (\"PShm::pp_shm_create_handle: p_sys_close() failed(1)\");\n\n\t\t\tpp_shm_clean_handle (shm);\n\t\t\treturn FALSE;",
+         new="\t\t\t\tP_WARNING (\"PShm::pp_shm_create_handle: p_sys_close() failed(1)\");\n\n\t\t\tpp_shm_clean_handle (shm);\n\t\t\treturn TRUE;"),
     dict(id="sysv-follower-opens-with-own-size", file="src/pshm-sysv.c", expect="C07.6",
          old="\t\t\tshm->shm_hdl = shmget (shm->unix_key, 0, flags);", new="\t\t\tshm->shm_hdl = shmget (shm->unix_key, shm->size, flags);"),
     dict(id="sysv-size-not-from-kernel", file="src/pshm-sysv.c", expect="C07.6",
